@@ -312,6 +312,8 @@ func runC08(c *report.Ctx) {
 	// ---- (5) a wallet flagged for removal is outside the follower's ready set: no new rows while it is being deleted --
 	ruleReadySet(c, false, true)
 	ruleRemovalKeepsSurvivorsReservations(c)
+	ruleNoNewRowsForRemovedWallet(c)
+	ruleBalanceLookupPresence(c) // a rollback between two removal steps must not re-create the removed wallet's rows
 	ruleImportAppliesSpends(c) // "the same mnemonic can be imported again": records a removal kept for a co-owner must not make the re-import skip the spends
 	ruleSelectionResetOnDelete(c)
 	ruleBlockRecordCount(c)
